@@ -624,6 +624,8 @@ def _analyse_own(chk):
 
 def analyse(chk):
     _analyse_own(chk)
+    chk.guard(lambda c_: core.include_findings(c_, 'C02', files=['ciderpress/lib/mod_cider/convolutions.c', 'ciderpress/lib/mod_cider/cider_coefs.c', 'ciderpress/dft/settings.py'], rules=['alpha-degree', 'chain-i', 'chain-j'],
+                                               why='the C integral kernels must have the exponent degree that SPEC_USPS declares for their spec'))
     chk.guard(lambda c_: core.include_findings(c_, 'C13', files=['ciderpress/dft/settings.py'], rules=['compose', 'emit-order'],
                                                why='the recommended normaliser list must be ordered like the declared scaling powers for the normalised powers to vanish'))
 
